@@ -3,7 +3,8 @@
 ID=$1; CHK=$2; TIER=${3:-quick}
 cd /repo || exit 2
 git diff --quiet || { echo "/repo has uncommitted changes"; exit 2; }
-git apply /verif/seeded/$ID/patch.diff || { echo "patch does not apply to current /repo"; exit 2; }
+git apply /verif/seeded/$ID/patch.diff 2>/dev/null || patch -p1 --fuzz=3 -s < /verif/seeded/$ID/patch.diff || { git checkout -- .; find . -name '*.rej' -o -name '*.orig' | xargs rm -f; echo "patch does not apply to current /repo"; exit 2; }
+find . -name '*.orig' | xargs rm -f
 cd /verif && bin/check $CHK --tier $TIER > work/try_${ID}_${CHK}.log 2>&1; rc=$?
 git -C /repo checkout -- .
 echo "$ID vs $CHK ($TIER): exit=$rc  $(grep -c '^VIOLATION' work/try_${ID}_${CHK}.log) violation lines, $(grep -c 'MODEL-DRIFT' work/try_${ID}_${CHK}.log) drift lines"
